@@ -704,6 +704,9 @@ def shared(ctx, R):
     ctx.rule("R4.1", "see C04 R4.1 (shared): index discipline -- a gap or duplicate in the order indices parks outputs forever")
     ctx.rule("R4.2", "see C04 R4.2 (shared): outputs are released exactly when in turn")
     c04.r4_4(ctx, R)
+    c04.r4_7(ctx, R, ot)
+    ctx.rule("R4.7", "see C04 R4.7 (shared): positions are assigned only by the numbering sites; stored indices and the counters are "
+                     "otherwise only re-based / stepped by one")
     ctx.rule("R4.4", "see C04 R4.4 (shared): the parked-output heap is a min-heap on the unsigned index -- another order parks the "
                      "next-in-turn output behind one that never matches")
     c15.r15_2b(ctx, R)
